@@ -4,12 +4,16 @@ import (
 	"bytes"
 	"context"
 	"fmt"
+	"os"
 	"os/exec"
 	"sort"
 	"strings"
 	"sync"
 	"time"
 )
+
+// noSkolem switches goal skolemisation off (GOVC_NOSKOLEM=1, for comparison runs).
+var noSkolem = os.Getenv("GOVC_NOSKOLEM") == "1"
 
 type solverSpec struct {
 	name string
@@ -62,7 +66,18 @@ func (o *Obligation) smt(withModel bool) string {
 		b.WriteByte('\n')
 	}
 	fmt.Fprintf(&b, "; goal %s\n", o.Name)
-	fmt.Fprintf(&b, "(assert %s)\n(assert (not %s))\n(check-sat)\n", o.Guard, o.Goal)
+	goal := o.Goal
+	if !noSkolem {
+		if o.skGoal == "" {
+			o.skGoal, o.skDecls = skolemizeGoal(o.Goal)
+		}
+		goal = o.skGoal
+		for _, d := range o.skDecls {
+			b.WriteString(d)
+			b.WriteByte('\n')
+		}
+	}
+	fmt.Fprintf(&b, "(assert %s)\n(assert (not %s))\n(check-sat)\n", o.Guard, goal)
 	if withModel {
 		b.WriteString("(get-model)\n")
 	}
